@@ -3,6 +3,7 @@ package wm
 import (
 	"fmt"
 	"sort"
+	"strings"
 
 	ocroutev1 "github.com/openshift/api/route/v1"
 	corev1 "k8s.io/api/core/v1"
@@ -68,7 +69,7 @@ type Ing struct {
 
 type Route struct {
 	NS, Name string
-	To       []string // to + alternateBackends
+	To       []string // to + alternateBackends; "Kind/name" spells a target of another kind than Service (ignored by the analysis)
 	Target   Target   // spec.port.targetPort
 }
 
@@ -108,9 +109,15 @@ func (i Ing) Info() *resource.Info {
 
 func (r Route) Info() *resource.Info {
 	o := &ocroutev1.Route{ObjectMeta: metav1.ObjectMeta{Name: r.Name, Namespace: r.NS}}
-	o.Spec.To = ocroutev1.RouteTargetReference{Kind: "Service", Name: r.To[0]}
+	ref := func(t string) ocroutev1.RouteTargetReference {
+		if k, n, ok := strings.Cut(t, "/"); ok {
+			return ocroutev1.RouteTargetReference{Kind: k, Name: n}
+		}
+		return ocroutev1.RouteTargetReference{Kind: "Service", Name: t}
+	}
+	o.Spec.To = ref(r.To[0])
 	for _, t := range r.To[1:] {
-		o.Spec.AlternateBackends = append(o.Spec.AlternateBackends, ocroutev1.RouteTargetReference{Kind: "Service", Name: t})
+		o.Spec.AlternateBackends = append(o.Spec.AlternateBackends, ref(t))
 	}
 	if r.Target.Set {
 		o.Spec.Port = &ocroutev1.RoutePort{TargetPort: r.Target.k8s()}
